@@ -29,13 +29,19 @@ ALPHABETS = {
     "A4": (0.5, 1.0, 1.5, 2.0),  # four letters: two controls + intercept do not interpolate the payoff
 }
 
-STRIKES = {"s": 0.75, "v2": [0.75, 1.25], "v3": [0.25, 0.75, 1.25]}
+STRIKES = {"s": 0.75, "v2": [0.75, 1.25], "v3": [0.25, 0.75, 1.25],
+           # payoffs on an underlying type other than Spot (sub "mixed"): call on the log-spot / on the mean of the spots
+           "ls": -0.25, "lv2": [-0.25, 0.25], "m": 0.75, "mv2": [0.75, 1.25]}
+PAYOFF_UNDERLYING = {"s": "spot", "v2": "spot", "v3": "spot", "ls": "logspot", "lv2": "logspot", "m": "mean", "mv2": "mean"}
+LFWD_K = -0.5  # strike of the forward on the log-spot
+LCALL_K = -0.25  # strike of the call on the log-spot
 
 # control strikes per payoff component (vector controls), scalar controls use the first entry
 FWD_K = (0.125, 0.25, 0.375)
 CALL_K = (0.875, 0.625, 1.125)
 
 CV_KINDS = ("none", "1r", "1a", "2r", "2a", "2u")
+CROSS_CV_KINDS = ("1x", "2x")  # controls on an underlying type different from the product's
 
 
 def quiet():
@@ -134,22 +140,33 @@ def terminal_spot(letter, representation):
 # products, controls, reference values
 # ----------------------------------------------------------------------------------------------------------------------
 
+def _underlying(name):
+    from rpylib.product.underlying import LogSpot, Mean, Spot
+
+    return {"spot": Spot, "logspot": LogSpot, "mean": Mean}[name]()
+
+
+def underlying_value(name, s):
+    """Value of the underlying of that type for terminal spot s (one-dimensional process: the mean is the spot)."""
+    return math.log(s) if name == "logspot" else s
+
+
 def make_product(kind, notional):
     from rpylib.product.payoff import PayoffType, Vanilla
     from rpylib.product.product import Product
-    from rpylib.product.underlying import Spot
 
     k = STRIKES[kind]
     strike = k if isinstance(k, float) else list(k)
-    return Product(payoff_underlying=Spot(), payoff=Vanilla(strike=strike, payoff_type=PayoffType.CALL), maturity=MATURITY,
-                   notional=notional)
+    return Product(payoff_underlying=_underlying(PAYOFF_UNDERLYING[kind]), payoff=Vanilla(strike=strike, payoff_type=PayoffType.CALL),
+                   maturity=MATURITY, notional=notional)
 
 
 def payoff_unit(kind, s):
     """Undiscounted, un-notionalled payoff components of terminal spot s."""
     k = STRIKES[kind]
     ks = [k] if isinstance(k, float) else k
-    return [max(s - x, 0.0) for x in ks]
+    u = underlying_value(PAYOFF_UNDERLYING[kind], s)
+    return [max(u - x, 0.0) for x in ks]
 
 
 def _sq(s):
@@ -164,10 +181,38 @@ def _bal_mean(f):
     return math.fsum(f(s) for s in _BAL) / len(_BAL)
 
 
-def control_spec(cv_kind, dim):
-    """List of controls; each is (name, [unit payoff function per payoff component], per_component: bool)."""
+def _f_forward(s, k=FWD_K[0]):
+    return s - k
+
+
+def _f_call(s, k=CALL_K[0]):
+    return max(s - k, 0.0)
+
+
+def _f_lforward(s):
+    return math.log(s) - LFWD_K
+
+
+def _f_lcall(s):
+    return max(math.log(s) - LCALL_K, 0.0)
+
+
+def control_spec(cv_kind, dim, payoff="s"):
+    """List of controls; each is (name, [unit payoff function of the terminal SPOT per payoff component], per_component).
+    Names: forward / call / square on Spot, lforward / lcall on LogSpot."""
     if cv_kind == "none":
         return []
+    if cv_kind in CROSS_CV_KINDS:
+        # at least one control on an underlying type different from the product's (scalar controls, broadcast)
+        pu = PAYOFF_UNDERLYING[payoff]
+        if pu == "spot":
+            names = ["lforward"] if cv_kind == "1x" else ["forward", "lcall"]
+        elif pu == "logspot":
+            names = ["forward"] if cv_kind == "1x" else ["lforward", "call"]
+        else:  # mean
+            names = ["forward"] if cv_kind == "1x" else ["forward", "lforward"]
+        fun = {"forward": _f_forward, "call": _f_call, "lforward": _f_lforward, "lcall": _f_lcall}
+        return [(nm, [fun[nm]] * dim, False) for nm in names]
     vector = cv_kind.endswith("a") and dim > 1
     out = []
     if vector:
@@ -184,31 +229,35 @@ def control_spec(cv_kind, dim):
     return out
 
 
-def control_prices(cv_kind, dim, notional, df):
+def control_prices(cv_kind, dim, notional, df, payoff="s"):
     """Given ("market") prices P[j][c] of control j for payoff component c."""
-    return [[notional * df * _bal_mean(f) for f in fs] for (_, fs, _) in control_spec(cv_kind, dim)]
+    return [[notional * df * _bal_mean(f) for f in fs] for (_, fs, _) in control_spec(cv_kind, dim, payoff)]
 
 
-def make_controls(cv_kind, dim, notional, df):
+def make_controls(cv_kind, dim, notional, df, payoff="s"):
     """The real ControlVariates object (None for 'none')."""
     from rpylib.product.payoff import Forward, PayoffOnTheFly, PayoffType, Vanilla
     from rpylib.product.product import ControlVariates, Product
-    from rpylib.product.underlying import Spot
 
     if cv_kind == "none":
         return None
-    spec = control_spec(cv_kind, dim)
-    P = control_prices(cv_kind, dim, notional, df)
+    spec = control_spec(cv_kind, dim, payoff)
+    P = control_prices(cv_kind, dim, notional, df, payoff)
     products, prices = [], []
     for j, (name, fs, per_comp) in enumerate(spec):
+        und = "logspot" if name in ("lforward", "lcall") else "spot"
         if name == "forward":
-            payoff = Forward(strike=np.array(FWD_K[:dim])) if per_comp else Forward(strike=FWD_K[0])
+            pay = Forward(strike=np.array(FWD_K[:dim])) if per_comp else Forward(strike=FWD_K[0])
         elif name == "call":
-            payoff = (Vanilla(strike=list(CALL_K[:dim]), payoff_type=PayoffType.CALL) if per_comp
-                      else Vanilla(strike=CALL_K[0], payoff_type=PayoffType.CALL))
+            pay = (Vanilla(strike=list(CALL_K[:dim]), payoff_type=PayoffType.CALL) if per_comp
+                   else Vanilla(strike=CALL_K[0], payoff_type=PayoffType.CALL))
+        elif name == "lforward":
+            pay = Forward(strike=LFWD_K)
+        elif name == "lcall":
+            pay = Vanilla(strike=LCALL_K, payoff_type=PayoffType.CALL)
         else:
-            payoff = PayoffOnTheFly(_sq)
-        products.append(Product(payoff_underlying=Spot(), payoff=payoff, maturity=MATURITY, notional=notional))
+            pay = PayoffOnTheFly(_sq)
+        products.append(Product(payoff_underlying=_underlying(und), payoff=pay, maturity=MATURITY, notional=notional))
         if cv_kind.endswith("r"):
             prices.append(float(P[j][0]))  # one real number per control (a scalar control has one market price)
         else:
@@ -216,14 +265,20 @@ def make_controls(cv_kind, dim, notional, df):
     return ControlVariates(products=products, prices=prices)
 
 
-def build_engine(case, letters):
+def make_objects(case):
+    """(product, control variates) of a case: built once, possibly priced several times (sub 'mixed')."""
+    dim = payoff_dim(case["payoff"])
+    product = make_product(case["payoff"], case["notional"])
+    cv = make_controls(case["cv"], dim, case["notional"], case["df"], case["payoff"])
+    return product, cv
+
+
+def build_engine(case, letters, objects=None):
     from rpylib.montecarlo.configuration import ConfigurationStandard
     from rpylib.montecarlo.standard.engine import Engine
 
-    dim = payoff_dim(case["payoff"])
     proc = ScriptedProcess(letters, df=case["df"], representation=case.get("rep", "identity"))
-    product = make_product(case["payoff"], case["notional"])
-    cv = make_controls(case["cv"], dim, case["notional"], case["df"])
+    product, cv = objects if objects is not None else make_objects(case)
     conf = ConfigurationStandard(mc_paths=len(letters), seed=None, control_variates=cv,
                                  activate_spot_statistics=bool(case["spot"]), nb_of_processes=1)
     return Engine(configuration=conf, process=proc), proc, product
@@ -234,7 +289,7 @@ def reference_rows(case, letters):
     rep = case.get("rep", "identity")
     dim = payoff_dim(case["payoff"])
     nt, df = case["notional"], case["df"]
-    spec = control_spec(case["cv"], dim)
+    spec = control_spec(case["cv"], dim, case["payoff"])
     S = [terminal_spot(v, rep) for v in letters]
     Y = [[(nt * p) * df for p in payoff_unit(case["payoff"], s)] for s in S]
     X = [[[(nt * f(s)) * df for f in fs] for (_, fs, _) in spec] for s in S]
